@@ -45,6 +45,11 @@ REF = {
                ("mips", ["--mattr=+mips32r6"], [])],
     "ppc32": [("powerpc", ["--mcpu=future"], []), ("powerpc", ["--mcpu=e500"], []), ("powerpc", ["--mcpu=a2"], [])],
 }
+# Instructions LLVM 14 has no table entry for although they are architectural: judged samples exclude them.
+REF_GAPS = {
+    "ppc32": re.compile(r"^(ECIWX|ECOWX|LSWI|LSWX|STSWI|STSWX|MCRXR)$"),      # POWER/PowerPC classic only
+    "mips32": re.compile(r"\.PS$"),                                           # paired-single formats
+}
 GNU_OPT = {"x86:32": ["-M", "i386"], "x86:64": ["-M", "x86-64"], "x86:16": ["-M", "i8086"]}
 
 _HDR = re.compile(r"^[0-9a-f]+ <s(\d+)>:$")
@@ -157,6 +162,11 @@ def compare(arch, batch, llvm, gnu, res=None):
                     res.dropped["x86: LLVM and GNU references disagree with each other"] += 1
                     res.counters["refs-disagree:%s:%s" % (arch.name, name)] += 1
                 continue
+        gap = REF_GAPS.get(arch.family)
+        if gap is not None and gap.search(name):
+            if res is not None:
+                res.dropped["mnemonic absent from the LLVM 14 tables (%s %s)" % (arch.family, gap.pattern)] += 1
+            continue
         if res is not None:
             res.counters["compared:%s" % arch.name] += 1
         head = "%s %s: miasm decodes %r (length %d)" % (arch.name, data[:ml].hex(), text.strip(), ml)
@@ -187,7 +197,9 @@ class C17(c15.RoundTripCheck):
                    "generic x86) are the reference; GNU binutils 2.40 cross-checks x86",
                    "fixed-width ISAs: the reference is asked about the logical instruction word, independent of the "
                    "byte order miasm reads it in",
-                   "only validity and length are compared, never the instruction text"]
+                   "only validity and length are compared, never the instruction text",
+                   "architectural instructions LLVM 14 lacks are not judged: PowerPC ECIWX/ECOWX/LSWI/LSWX/STSWI/"
+                   "STSWX/MCRXR, MIPS paired-single (.PS) formats"]
     level_text = ("differential testing of decoder validity/length against LLVM's disassembler over an opcode-space "
                   "enumeration plus curated and random bytes")
     technique = "differential testing against an independent disassembler"
